@@ -26,10 +26,8 @@ CLAIMS = {
         note="interrogator code theorem rests on the C01 CRC development.",
         design="8 C08", technique="Lean 4 proof (kernel enumeration + structural frame theorems) + exhaustive correspondence"),
     "C09": dict(
-        text="Theorems: the regenerated surface movement table equals the DO-260B quantisation table on all 128 codes; altitude_diff is "
-             "+-(N-1)*25 ft of the documented field under the TC19 guard (partial: code 127 -> None, open finding). The TC19 decoder is "
-             "tied by correspondence over subtype x signs x boundary values x vertical rates and checked against an independent DO-260B oracle.",
-        note="track angle uses atan2 (trusted libm); int(math.sqrt n) modelled as Nat.sqrt.",
+        text='Theorems (11): airborne_velocity_spec (on every 112-bit TC19 frame the result is the DO-260B function of subtype, the two sign bits, the two 10-bit fields, the VR source/sign/value — a spec written from the property text), its TC guard, an encoder round trip through the 17-field ME layout with every other field universally quantified, surface_velocity_spec (movement table = DO-260B on all 128 codes; track N*360/128 under its status bit), routing of velocity(), altitude_diff (partial: code 127 -> None, open finding). Tie: subtype x signs x boundary values x vertical rates, 128x2x128 surface codes, guards.',
+        note='track angle uses atan2 (trusted libm; the model leaves it symbolic); int(math.sqrt n) modelled as Nat.sqrt.',
         design="8 C09", technique="Lean 4 proof (table certificate, field theorems) + product/exhaustive correspondence"),
     "C10": dict(
         text="Theorems: callsign_roundtrip (any eight legal 6-bit codes in ME bits 9-56 of a TC1-4 frame come back as the eight characters, "
@@ -38,34 +36,24 @@ CLAIMS = {
         note="callsign() deletes '#': position independence for illegal codes is not claimed (nor required by the property).",
         design="8 C10", technique="Lean 4 proof (structural round-trip over build/slice lemmas + table certificate) + correspondence"),
     "C01": dict(
-        text="(in progress) Theorem so far: the generator literals of crc and crc_legacy are 0x1FFF409. The byte-wise divider is tied to "
-             "/repo by correspondence on all 1-bit and 2-bit frames of both lengths and random frames, and the property itself "
-             "(remainder = independent polynomial division, parity closure, burst<=24 and weight<=5 detection) is evaluated on the real code.",
-        note="remainder / linearity / detection theorems are being added; until then the detection claims rest on the correspondence + spec oracle.",
+        text='Theorems (Lean 4 + Mathlib bridge, 15): the model of py_common.crc equals the Horner remainder modulo 0x1FFF409 for every bit string of >= 3 whole bytes, which equals `%ₘ` in (ZMod 2)[X]; crc < 2^24; linearity over XOR; encode=True ignores the parity field; parity closure; every burst of <= 24 bits and every pattern of weight 1..5 in frames of <= 112 bits leaves a non-zero checksum (parity invariant + kernel-checked syndrome certificate); crc = crc_legacy; sharpness examples (a 25-bit burst and a weight-6 pattern that are missed). Tie: generator literals regenerated and pinned by theorem; all 1-/2-bit frames, random frames, call sequences on one string, closure / burst / weight streams and RtlReader._check_msg (all 24 parity-bit flips) on the real code.',
+        note='the theorems are about the model; the tie is the table translator plus the correspondence.',
         design="8 C01", technique="Lean 4 proof (GF(2) algebra over the model) + correspondence incl. all 1-/2-bit frames"),
     "C02": dict(
-        text="Theorems: icao is the upper-cased AA field for DF11/17/18, None for every format outside 0/4/5/11/16/17/18/20/21, DF clamp. "
-             "AP-overlay recovery is checked on the real code for DF x length x hex case x addresses through an independent parity encoder.",
-        note="icao_AP theorem depends on the C01 algebra (in progress).",
+        text='Theorems (14): icao = upper-cased AA for DF11/17/18; for DF0/4/5/16/20/21 and every address A < 2^24, payload and even length, a frame whose AP field is parity XOR A yields hex6 A (uses C01), and the encoder makes that hypothesis satisfiable; None for every other format; hex6 is six upper-case digits with value A (injective); icao is insensitive to the letter case of the input; the same address string results across formats. Tie: DF 0..31 x {56,112} x {upper, lower, mixed} x addresses incl. 000000 / FFFFFF.',
+        note='on non-hex characters the model reads 0 where Python raises; statements are for hex strings.',
         design="8 C02", technique="Lean 4 proof + correspondence over DF x length x case x address"),
     "C11": dict(
-        text="Theorems: generic Doc 9871 row decoders (status-gated unsigned / two's-complement field) are functions of their status, sign "
-             "and value bits only and invert the field encoder for every width/value/other bits (ufield_spec, sfield_spec, ufield_roundtrip). "
-             "Every exported field decoder is tied to its Doc 9871 row by exhaustive correspondence (all raw values x status x sign x random other bits) "
-             "and `commb.f is bdsXX.f` is asserted for the 40 exported names.",
-        note="module wiring is a checked fact, not a theorem.",
+        text='Theorems (46): a Doc 9871 row table for the 28 status-gated decoders with a generic decodeRow written from the property text; for every 112-bit frame each decoder equals decodeRow of its row on the MB field (one theorem per decoder and a table form); independence from every bit outside status/sign/value; generic encoder round trip for well-formed rows (all 28 rows satisfy the side conditions); the unconditional temperature decoders, wind44, ovc10 and cap17 against the regenerated capability list. Tie: every raw value x status x sign per field with random other bits; `commb.f is bdsXX.f` asserted for the 40 exported names.',
+        note='module wiring is a checked fact, not a theorem.',
         design="8 C11", technique="Lean 4 proof (generic field-row theorems) + per-field exhaustive correspondence"),
     "C13": dict(
-        text="Theorems on the regenerated tables: totality of the TC->NUCp/NICv1/NICv2 look-ups over TC 5-18, 20-22, totality of the category tables, "
-             "monotonicity (higher category never looser) of NUCp/NACp/NUCv/NACv/SIL and of TC->NUCp; is_emergency_spec. TC28/29/31 field "
-             "decoders tied by exhaustive correspondence against an independent DO-260B oracle.",
-        note="float literals of uncertainty.py are read as exact decimals.",
+        text='Theorems (46): one frame-level theorem per TC28/29/31 decoder (value = explicit function of named bit slices, RuntimeError for the other TC / excluded subtype), selected heading over the full 0-360 range (all 512 codes), is_emergency <=> subtype 1 and state != 0; NUCp / NIC v1 / NIC v2 results as look-ups in the regenerated tables, nic_v2 never raises; regenerated tables: totality, monotonicity, equality with the DO-260B TC->NUCp / NIC tables. Tie: all field values x subtype, TC x supplements x version in several call orders, 8 emergency states, against an independent DO-260B oracle.',
+        note='float literals of uncertainty.py are read as exact decimals; containment-radius values are compared with the model only.',
         design="8 C13", technique="Lean 4 proof (decide +kernel on regenerated tables, field theorems) + exhaustive correspondence"),
     "C14": dict(
-        text="Res-valued model with partial primitives (crash = any non-RuntimeError exception); guard theorems are being added per decoder. "
-             "Outcome class of ~110 entry points compared with the model and with the documented (DF, TC, subtype) domain over DF x TC x subtype x "
-             "payload style x {28,14} hex digits. Two open findings are reported as KNOWN-FINDING (short frames, reserved TC29 subtypes).",
-        note="tell() is checked on the real code only (not modelled).",
+        text='Theorems (25): no_exc_112 — on every 112-bit frame none of ~90 modelled decoders (ADS-B, Comm-B, surv, allcall, infer, position dispatchers) raises anything but RuntimeError; guard_iff — each guarded decoder returns RuntimeError exactly outside its documented (DF, TC, subtype) set (TC29 decoders as coded: open finding); routing tables for position / position_with_ref / velocity / altitude; tell_total_112 — tell() returns normally on every 112-bit frame (and a proved 56-bit counter-example marking the open finding). Tie: ~110 entry points x DF x TC x subtype x payload style x {28,14} digits, pair routing product, boundary sweeps; outcome class compared with the model and the documented domain.',
+        note='56-bit frames into long-frame decoders and reserved TC29 subtypes are recorded open findings (KNOWN-FINDING).',
         design="8 C14", technique="Lean 4 proof (guard theorems over a Res-valued model) + exhaustive outcome-class correspondence"),
     "C18": dict(
         text="Theorems: uplink_fields agrees with pr/ic for UF11; non-roll-call, non-UF11 formats carry no fields. All field decoders and uplink_icao are "
@@ -97,10 +85,8 @@ CLAIMS = {
         note="that the committed enclosures contain the true transition latitudes rests on a 60-digit mpmath computation (not a theorem); float evaluation within 1e-9 degree of a transition may return either neighbour.",
         design="8 C06", technique="Lean 4 proof (staircase laws over Q) + grid/ulp correspondence"),
     "C12": dict(
-        text="Theorems: EMPTY for an all-zero MB field, DF17 register by type code (table pinned), infer = filter of the nine rule results (by definition of the model). "
-             "Tie and spec oracle: validly encoded in-envelope registers are reported (completeness), each status/reserved-bit violation excludes the register (soundness), "
-             "thresholds +-1 LSB, DF20 altitude cross-check through the Float aero model, infer consistent with isXX on random payloads, mrar both.",
-        note="is60's altitude cross-check and is50or60 use floating point (aero); is50or60 is exercised on the real code only.",
+        text='Theorems (64): infer is total on 112-bit frames (every isXX is a value); EMPTY; DF17 by type code (table pinned); for Comm-B replies infer returns exactly the labels of the satisfied rule sets in the fixed order, which is proved to be the sorted order, None iff no rule holds; wrongstatus_spec; per-register soundness for every coded status triple of 4,0 4,4 4,5 5,0 6,0 and for the reserved-bit rules of 1,0 1,7 2,0 3,0 4,0; exact characterisation is50_iff and completeness for BDS 4,0, 5,0 and 6,0 (core) built from sub-fields with arbitrary header/parity. Tie and oracle: completeness, soundness, thresholds +-1 LSB, DF20 altitude cross-check through the Float aero model, call-history sequences, is50or60, random payloads, mrar both.',
+        note="is60's altitude cross-check and is50or60 use floating point (aero); is50or60 is checked on the real code against an independent distance computation.",
         design="8 C12", technique="Lean 4 proof + boundary-directed correspondence"),
     "C16": dict(
         text="Theorems (33, Properties/C16.lean): feeding any chunking of any byte stream to the Beast or Skysense reader yields the same messages and final buffer as one read of the "
@@ -110,16 +96,12 @@ CLAIMS = {
         note="time.time() stamps and ZeroMQ are not modelled; readers are entered at self.buffer.",
         design="8 C16, 11.3", technique="Lean 4 proof (induction over chunk lists, resumable-scan lemma) + exhaustive-cut correspondence"),
     "C17": dict(
-        text="Model of Decode.process_raw projected on keys/live/frames/tpos/lat/lon/version/NIC state; theorem stale_removed (nothing older than cache_timeout survives a call); "
-             "further invariants in progress. Tie: 1200 random histories (30k thorough) with state compared after every call, and the property predicate "
-             "(no exception, 59/61 s staleness, Comm-B gating, 0.001-degree positions against the true trajectory) evaluated on the real code.",
-        note="'<= 600 kt and < 180 s / < 10 s => inside the decode boxes' is geometry (trusted-base item 6); longitude tolerance is max(0.001, half a step) where NL-i = 1.",
+        text='Theorems (37): process_raw never raises on any history of 28-digit DF17/18 messages and Comm-B replies starting from the empty table (unconditional, with the table invariant TrackerWF); pyInt bounds; keys grow only by ADS-B messages and a Comm-B reply for an unknown address changes nothing (gating); live after each step, Comm-B only raises it; an aircraft heard <= 59 s before tnow is listed and one whose last stamp is > 61 s old is absent; every step and whole calls are insensitive to the letter case of the input. Tie: 1200 random histories (state after every call) and the NetSource->Decode pipeline in both letter cases; staleness, gating and 0.001-degree position predicates against the true trajectory on the real code.',
+        note="the model's commbStep stops at infer (the BDS 5,0/6,0 field decoders run afterwards are covered by C11/C14); '<= 600 kt => inside the decode boxes' is geometry, not a theorem.",
         design="8 C17", technique="Lean 4 proof (invariants of the step function) + history correspondence"),
     "C19": dict(
-        text="Model of _process_buffer over rational samples; theorem checkMsg_df17_crc0 (a DF17 frame passes only with zero checksum; with C01 this is the true remainder). "
-             "Tie: synthetic PPM buffers on a dyadic grid (contents x offsets x amplitudes x noise x spacing) compared sample-exactly with the model; frames with noise ratio <= 0.19 are "
-             "all recovered; the 10-14 dB band is an open finding reported as KNOWN-FINDING.",
-        note="numpy mean/min and float comparisons are modelled exactly on the dyadic grid.",
+        text="Theorems (17): never_bad_df17 — every message returned by the model of _process_buffer passes _check_msg, so a returned DF17 frame has 28 digits and a zero polynomial remainder (via C01), unconditionally; the loop terminates with the modelled fuel; clean-signal recovery for one and for any number of frames under explicit sample hypotheses (every non-pulse sample < 0.2 x amplitude and < 0.2, amplitude in [0.3, 1.4], gaps >= 114 samples): exactly the frames, in order; and snr_10dB_insufficient, a kernel-evaluated buffer meeting the property's literal 10 dB wording on which the frame is lost (the open finding). Tie: synthetic PPM buffers on a dyadic grid incl. real-size busy buffers and frames at the buffer end.",
+        note='numpy mean/min and float comparisons are modelled exactly on the dyadic grid; constants 3.162 and 0.2 are hard-coded in the model and covered by the correspondence.',
         design="8 C19", technique="Lean 4 proof + synthetic-signal correspondence"),
     "C20": dict(
         text="One polymorphic model of aero.py; 59 theorems over the reals: positivity, all eight inverse pairs, strict monotonicity of all conversions, TAS>=EAS and CAS>=EAS for H>=0 (Jensen), "
@@ -128,11 +110,8 @@ CLAIMS = {
         note="IEEE rounding / libm are not modelled (Float instance is compared, real instance is proved); 0.1% ISA agreement is a numeric check, not a theorem.",
         design="8 C20", technique="Lean 4 + Mathlib proof over R + Float-instance correspondence"),
     "C15": dict(
-        text="Cython cannot be run here, so the current c_common.pyx text is transliterated to Python with C integer semantics; the transliterator is validated on every run "
-             "against the shipped .so (built from the pinned .pyx) and then applied to the current text. Streams: every shared function on its whole domain (13-bit codes exhaustive, "
-             "DF x TC, floats, frames in both cases) against py_common modulo the sentinel map; the Lean C-semantics model (Model/CCommon.lean) against the transliteration; decoders "
-             "re-run with the C module swapped in. Theorems: C-model = Python model modulo sentinels (Properties/C15.lean). One open finding (sentinel leaks through callers) is reported as KNOWN-FINDING.",
-        note="a recompiled extension cannot be observed; cprNL/floor floating-point behaviour of libm is compared through Python's math module.",
+        text='Theorems (36): the C-semantics model of c_common.pyx equals the model of py_common on hex strings — char_to_int = hexVal, hex2bin, bin2int (= wrap64, equal below 64 bits), hex2int, df, typecode (-1 <=> None), crc, icao, squawk (all inputs), gray2alt and altitude (sentinel map turns the C result into the Python result on every bit string, same RuntimeError set, no legal altitude equals a sentinel), altcode, idcode. Tie: the current .pyx text transliterated to Python with C integer semantics — the transliterator is validated on every run against the shipped .so built from the pinned .pyx — compared with py_common on whole domains and call sequences, with the Lean C-model, and with decoders run with the C module swapped in. One open finding (sentinel leaks through callers, site-specific) is reported as KNOWN-FINDING.',
+        note="a recompiled extension cannot be observed; cprNL/floor floating-point behaviour is compared through Python's math module.",
         design="8 C15, 4.3", technique="Lean 4 proof (C-semantics twin) + transliteration validated against the shipped binary + correspondence"),
 }
 
